@@ -86,10 +86,12 @@ def render_contract(c, role, lines, ind):
         return "%s, error=W.exc(%d)" % (cond, err[1])
     if err[0] == "factory":
         names = err[1]
+        dflt = err[3] if len(err) > 3 else []
         kws = ", ".join("'%s': %s" % (n, n) for n in names)
+        plist = ", ".join(n + ("=W.MISSING" if n in dflt else "") for n in names)
         if len(err) > 2 and err[2] == "lambda":
-            return "%s, error=lambda %s: W.error(%d, {%s})" % (cond, ", ".join(names), c["cid"], kws)
-        lines.append("%sdef e_%d(%s): return W.error(%d, {%s})" % (ind, c["cid"], ", ".join(names), c["cid"], kws))
+            return "%s, error=lambda %s: W.error(%d, {%s})" % (cond, plist, c["cid"], kws)
+        lines.append("%sdef e_%d(%s): return W.error(%d, {%s})" % (ind, c["cid"], plist, c["cid"], kws))
         return "%s, error=e_%d" % (cond, c["cid"])
     raise ValueError(err)
 
